@@ -132,9 +132,9 @@ PROPS = {
     ),
     "C04": dict(
         module="Evl.Props.C04",
-        theorems=["Evl.C04.discipline", "Evl.C04.discipline_ok", "Evl.C04.discipline_nonvacuous", "Evl.C04.one_section", "Evl.C04.swap_is_one_store",
+        theorems=["Evl.C04.discipline", "Evl.C04.discipline_ok", "Evl.C04.discipline_nonvacuous", "Evl.C04.one_section", "Evl.C04.roots_mutations_in_section", "Evl.C04.swap_is_one_store",
                   "Evl.C04.lockset_sound'", "Evl.C04.sequential"],
-        runs=[race_run("window,registry"), REGISTRY_RUN], oracle_prefixes=["C04"], models=["M4 Lockset", "M1 Registry", "Generated.Accesses/RegistryFacts"],
+        runs=[race_run("window"), race_run("registry", 300, 3000, 1000), REGISTRY_RUN], oracle_prefixes=["C04"], models=["M4 Lockset", "M1 Registry", "Generated.Accesses/RegistryFacts"],
         trusted_base=TB_COMMON + ["gofacts translator: Evl/Generated/*.lean are regenerated from /repo on every run"],
         assumptions=LOCK_ASSUME + M1_ASSUME, rule=LOCK_RULE,
         technique="Lean 4 proof (lock-set soundness theorem + kernel `decide` over facts regenerated from source by a translator) + race-detector concurrency harness as validation/search",
